@@ -140,9 +140,10 @@ def _local_names(fn):
 
 
 class Flattener:
-    def __init__(self, repo, depth=2, skip=()):
+    def __init__(self, repo, depth=2, skip=(), cross_public=False):
         self.repo = repo
         self.depth = depth
+        self.cross_public = cross_public  # also expand public functions imported from other modules
         self.skip = set(skip)  # bare names of helpers never to expand
         self.k = 0
         self.expanded = []  # (caller line, helper qualname) for the evidence
@@ -196,7 +197,7 @@ class Flattener:
                 return None
             if mod.has(f.id) and isinstance(mod.quals[f.id], FuncTypes):
                 return mod, mod.quals[f.id], None, "plain"
-            imp = self._imported(mod, f.id)
+            imp = self._imported(mod, f.id) if (f.id.startswith("_") or self.cross_public) else None
             if imp:
                 return imp[0], imp[1], None, "plain"
             return None
@@ -364,6 +365,11 @@ class Flattener:
             for y in ast.walk(x):
                 if isinstance(y, ast.stmt) and not hasattr(y, "_xv_from"):
                     y._xv_from = (cmod.rel, qual)  # type: ignore[attr-defined]
+        # the call itself stays visible, as a statement of its own in front of the expansion (rules that
+        # look for "a call of X" keep finding it, at the position where it is made)
+        marker = ast.copy_location(ast.Expr(value=clone(call)), s)
+        marker._xv_call_marker = True  # type: ignore[attr-defined]
+        pre = [marker] + pre
         rets = [n for x in body for n in _walk_stmts(x) if isinstance(n, ast.Return)]
         if mode == "tail":
             out = pre + body
@@ -505,9 +511,10 @@ def _replace_returns(stmts, rname):
     return out
 
 
-def flatten(repo, fn, depth=2, skip=()):
+def flatten(repo, fn, depth=2, skip=(), cross_public=False):
     """Convenience: flattened copy of ``fn`` and the list of expansions performed."""
-    fl = Flattener(repo, depth=depth, skip=skip)
+    fn = getattr(fn, "_xv_flat_of", fn)  # always start from the source form
+    fl = Flattener(repo, depth=depth, skip=skip, cross_public=cross_public)
     new = fl.flatten(fn)
     new._xv_expanded = fl.expanded
     return new
